@@ -1,0 +1,304 @@
+//go:build verif
+
+package main
+
+import (
+	"encoding/json"
+	"fmt"
+
+	"github.com/ludo-technologies/pyscn/domain"
+	"github.com/ludo-technologies/pyscn/internal/analyzer"
+	"github.com/ludo-technologies/pyscn/service"
+)
+
+// Ops for the reproducibility property (C05): every op runs one emission site of the report on a
+// synthetic input. Where the production code takes a slice, the caller chooses the arrival orders
+// ("orders": index permutations); where it ranges over a Go map the op is repeated ("repeat") and
+// Go's per-range randomisation supplies the orders.
+
+type detGraph struct {
+	Modules []string    `json:"modules"`
+	Edges   [][2]string `json:"edges"`
+}
+
+func (g detGraph) build() *analyzer.DependencyGraph {
+	dg := analyzer.NewDependencyGraph("/")
+	for _, m := range g.Modules {
+		dg.AddModule(m, m+".py")
+	}
+	for _, e := range g.Edges {
+		dg.AddDependency(e[0], e[1], analyzer.DependencyEdgeImport, nil)
+	}
+	return dg
+}
+
+func permute[T any](xs []T, order []int) []T {
+	out := make([]T, 0, len(order))
+	for _, i := range order {
+		out = append(out, xs[i])
+	}
+	return out
+}
+
+func init() {
+	register("det_sort_functions", func(raw json.RawMessage) (interface{}, error) {
+		var req struct {
+			Functions []struct {
+				Name, File string
+				Line, Cx   int
+				Risk       string
+			} `json:"functions"`
+			SortBy string  `json:"sort_by"`
+			Orders [][]int `json:"orders"`
+		}
+		if err := json.Unmarshal(raw, &req); err != nil {
+			return nil, err
+		}
+		fs := make([]domain.FunctionComplexity, len(req.Functions))
+		for i, f := range req.Functions {
+			fs[i] = domain.FunctionComplexity{Name: f.Name, FilePath: f.File, StartLine: f.Line,
+				Metrics: domain.ComplexityMetrics{Complexity: f.Cx}, RiskLevel: domain.RiskLevel(f.Risk)}
+		}
+		var outs [][][2]string
+		for _, o := range req.Orders {
+			sorted := service.VerifSortFunctions(permute(fs, o), domain.SortCriteria(req.SortBy))
+			var out [][2]string
+			for _, f := range sorted {
+				out = append(out, [2]string{f.FilePath, f.Name})
+			}
+			outs = append(outs, out)
+		}
+		return map[string]interface{}{"outputs": outs}, nil
+	})
+
+	register("det_sort_classes", func(raw json.RawMessage) (interface{}, error) {
+		var req struct {
+			Classes []struct {
+				Name, File string
+				Line, Cbo  int
+				Risk       string
+			} `json:"classes"`
+			SortBy string  `json:"sort_by"`
+			Orders [][]int `json:"orders"`
+		}
+		if err := json.Unmarshal(raw, &req); err != nil {
+			return nil, err
+		}
+		cs := make([]domain.ClassCoupling, len(req.Classes))
+		for i, c := range req.Classes {
+			cs[i] = domain.ClassCoupling{Name: c.Name, FilePath: c.File, StartLine: c.Line,
+				Metrics: domain.CBOMetrics{CouplingCount: c.Cbo}, RiskLevel: domain.RiskLevel(c.Risk)}
+		}
+		var outs, tops [][][2]string
+		for _, o := range req.Orders {
+			sorted, top := service.VerifSortClasses(permute(cs, o), domain.SortCriteria(req.SortBy))
+			var out, t [][2]string
+			for _, c := range sorted {
+				out = append(out, [2]string{c.FilePath, c.Name})
+			}
+			for _, c := range top {
+				t = append(t, [2]string{c.FilePath, c.Name})
+			}
+			outs = append(outs, out)
+			tops = append(tops, t)
+		}
+		return map[string]interface{}{"outputs": outs, "tops": tops}, nil
+	})
+
+	register("det_dead_reason", func(raw json.RawMessage) (interface{}, error) {
+		var req struct {
+			Blocks []analyzer.VerifBlock `json:"blocks"`
+			Target string                `json:"target"`
+			Repeat int                   `json:"repeat"`
+		}
+		if err := json.Unmarshal(raw, &req); err != nil {
+			return nil, err
+		}
+		var outs []string
+		for i := 0; i < req.Repeat; i++ {
+			r, sev := analyzer.VerifDeadReason(req.Blocks, req.Target)
+			outs = append(outs, r+"/"+sev)
+		}
+		return map[string]interface{}{"outputs": outs}, nil
+	})
+
+	register("det_cycles", func(raw json.RawMessage) (interface{}, error) {
+		var req struct {
+			Graph      detGraph   `json:"graph"`
+			Components [][]string `json:"components"`
+			Orders     [][]int    `json:"orders"`
+			Repeat     int        `json:"repeat"`
+		}
+		if err := json.Unmarshal(raw, &req); err != nil {
+			return nil, err
+		}
+		var outs []interface{}
+		for _, o := range req.Orders {
+			for k := 0; k < req.Repeat; k++ {
+				res := analyzer.VerifProcessComponents(req.Graph.build(), permute(req.Components, o))
+				var out []interface{}
+				for _, c := range res {
+					var chains [][2]string
+					for _, d := range c.Dependencies {
+						chains = append(chains, [2]string{d.From, d.To})
+					}
+					out = append(out, map[string]interface{}{"modules": c.Modules, "severity": c.Severity, "chains": chains, "description": c.Description})
+				}
+				outs = append(outs, out)
+			}
+		}
+		return map[string]interface{}{"outputs": outs}, nil
+	})
+
+	register("det_chains", func(raw json.RawMessage) (interface{}, error) {
+		var req struct {
+			Graph  detGraph `json:"graph"`
+			Limit  int      `json:"limit"`
+			Repeat int      `json:"repeat"`
+		}
+		if err := json.Unmarshal(raw, &req); err != nil {
+			return nil, err
+		}
+		var outs [][][]string
+		for k := 0; k < req.Repeat; k++ {
+			res := service.VerifLongestChains(req.Graph.build(), req.Limit)
+			out := [][]string{}
+			for _, p := range res {
+				if p.Length != len(p.Path) || p.From != p.Path[0] || p.To != p.Path[len(p.Path)-1] {
+					return nil, fmt.Errorf("inconsistent path %+v", p)
+				}
+				out = append(out, p.Path)
+			}
+			outs = append(outs, out)
+		}
+		return map[string]interface{}{"outputs": outs}, nil
+	})
+
+	type detFrag struct {
+		File           string
+		SL, SC, EL, EC int
+	}
+	mkFrags := func(fs []detFrag) []*analyzer.CodeFragment {
+		out := make([]*analyzer.CodeFragment, len(fs))
+		for i, f := range fs {
+			out[i] = &analyzer.CodeFragment{Location: &analyzer.CodeLocation{FilePath: f.File, StartLine: f.SL, StartCol: f.SC, EndLine: f.EL, EndCol: f.EC}}
+		}
+		return out
+	}
+
+	register("det_clone_pairs", func(raw json.RawMessage) (interface{}, error) {
+		var req struct {
+			Frags []detFrag `json:"frags"`
+			Pairs []struct {
+				A, B int
+				Sim  float64
+			} `json:"pairs"`
+			Max    int     `json:"max"`
+			Orders [][]int `json:"orders"`
+		}
+		if err := json.Unmarshal(raw, &req); err != nil {
+			return nil, err
+		}
+		frags := mkFrags(req.Frags)
+		idx := map[*analyzer.CodeFragment]int{}
+		for i, f := range frags {
+			idx[f] = i
+		}
+		var outs [][][2]int
+		for _, o := range req.Orders {
+			pairs := make([]*analyzer.ClonePair, len(req.Pairs))
+			for i, p := range req.Pairs {
+				pairs[i] = &analyzer.ClonePair{Fragment1: frags[p.A], Fragment2: frags[p.B], Similarity: p.Sim}
+			}
+			res := analyzer.VerifSortClonePairs(permute(pairs, o), req.Max)
+			out := [][2]int{}
+			for _, p := range res {
+				out = append(out, [2]int{idx[p.Fragment1], idx[p.Fragment2]})
+			}
+			outs = append(outs, out)
+		}
+		return map[string]interface{}{"outputs": outs}, nil
+	})
+
+	type detMetric struct {
+		Name                                string
+		Instability, Abstractness, Distance float64
+		Ca, Ce, Cx                          int
+	}
+	mkMetrics := func(ms []detMetric) map[string]*analyzer.ModuleMetrics {
+		out := map[string]*analyzer.ModuleMetrics{}
+		for _, m := range ms {
+			out[m.Name] = &analyzer.ModuleMetrics{AfferentCoupling: m.Ca, EfferentCoupling: m.Ce, Instability: m.Instability,
+				Abstractness: m.Abstractness, Distance: m.Distance, CyclomaticComplexity: m.Cx}
+		}
+		return out
+	}
+
+	register("det_refactor", func(raw json.RawMessage) (interface{}, error) {
+		var req struct {
+			Metrics []detMetric `json:"metrics"`
+			Cycles  [][]string  `json:"cycles"`
+			Repeat  int         `json:"repeat"`
+		}
+		if err := json.Unmarshal(raw, &req); err != nil {
+			return nil, err
+		}
+		var outs [][]string
+		for k := 0; k < req.Repeat; k++ {
+			g := analyzer.NewDependencyGraph("/")
+			g.CyclicGroups = req.Cycles
+			res := analyzer.VerifRefactoringPriorities(g, mkMetrics(req.Metrics))
+			if res == nil {
+				res = []string{}
+			}
+			outs = append(outs, res)
+		}
+		return map[string]interface{}{"outputs": outs}, nil
+	})
+
+	register("det_sums", func(raw json.RawMessage) (interface{}, error) {
+		var req struct {
+			Metrics []detMetric `json:"metrics"`
+			Repeat  int         `json:"repeat"`
+		}
+		if err := json.Unmarshal(raw, &req); err != nil {
+			return nil, err
+		}
+		var outs [][]float64
+		for k := 0; k < req.Repeat; k++ {
+			g := analyzer.NewDependencyGraph("/")
+			sm := analyzer.VerifSystemSums(g, mkMetrics(req.Metrics))
+			g2 := analyzer.NewDependencyGraph("/")
+			g2.ModuleMetrics = mkMetrics(req.Metrics)
+			g2.TotalModules = len(req.Metrics)
+			g2.SystemMetrics = nil
+			sv := service.VerifCouplingResult(g2)
+			outs = append(outs, []float64{sm.AverageInstability, sm.AverageAbstractness, sm.MainSequenceDeviation, sm.SystemComplexity,
+				sv.AverageInstability, sv.AverageAbstractness, sv.MainSequenceDeviation})
+		}
+		return map[string]interface{}{"outputs": outs}, nil
+	})
+
+	register("det_majority", func(raw json.RawMessage) (interface{}, error) {
+		var req struct {
+			Frags []detFrag `json:"frags"`
+			Types []struct {
+				A, B, T int
+			} `json:"types"`
+			Repeat int `json:"repeat"`
+		}
+		if err := json.Unmarshal(raw, &req); err != nil {
+			return nil, err
+		}
+		frags := mkFrags(req.Frags)
+		tm := map[string]analyzer.CloneType{}
+		for _, t := range req.Types {
+			tm[analyzer.VerifPairKey(frags[t.A], frags[t.B])] = analyzer.CloneType(t.T)
+		}
+		var outs []int
+		for k := 0; k < req.Repeat; k++ {
+			outs = append(outs, int(analyzer.VerifMajorityCloneType(tm, frags)))
+		}
+		return map[string]interface{}{"outputs": outs}, nil
+	})
+}
